@@ -44,11 +44,12 @@ def expected_report(iver, vec, as_json):
                 lines.append("%s:%s%s" % (name, pad, sc[i]))
             else:
                 lines.append("%s:%s%s (%s)" % (name, pad, sc[i], sev[i]))
-    lines.append("Cleaned vector:        " + o.clean_vector())
-    lines.append("Red Hat vector:        " + o.rh_vector())
+    # every item from a FRESH object: what the API reports, independent of the order in which main() calls it
+    lines.append("Cleaned vector:        " + im.cls[ver](vec).clean_vector())
+    lines.append("Red Hat vector:        " + im.cls[ver](vec).rh_vector())
     if as_json:
         lines.append("CVSS vector in JSON:")
-        lines.append(json.dumps(o.as_json(sort=True, minimal=True), indent=2))
+        lines.append(json.dumps(im.cls[ver](vec).as_json(sort=True, minimal=True), indent=2))
     return "\n".join(lines) + "\n"
 
 
@@ -79,6 +80,17 @@ def check(ctx, flags, vec, answers):
         a = inter.ask(iver, "a" in flags, answers, no_colors=("n" in flags))
         dialogue = a["stdout"]
         want_vec = a["vector"] if a["outcome"] == "result" else None
+        # the vector the answers spell out, by the statement (independent simulation of C16), in the order asked
+        from . import c16
+        inv = c16.names_to_abbr(iver)
+        order = [inv.get(n, n) for n, _ in a["asked"]]
+        V = core.VOCAB[iver[0]]
+        expected_set = V["order"] if "a" in flags else V["mandatory"]
+        sim = c16.simulate(iver, "a" in flags, answers, order + [m for m in expected_set if m not in order])
+        if single and a["outcome"] == "result" and sim[0] == "result" and sim[1] != a["vector"]:
+            ctx.violation("%s:interactive-vector-differs-from-answers" % sig_v, "the vector built interactively is not the one the answers spell out",
+                          rp, sim[1], a["vector"], replay=rp)
+            want_vec = sim[1]
     if not res["stdout"].startswith(dialogue):
         ctx.violation("%s:interactive-dialogue-differs" % sig_v, "the dialogue printed by the CLI differs from ask_interactively's", rp, dialogue[-200:], res["stdout"][:300], replay=rp)
         return res, None
